@@ -19,6 +19,7 @@ def histStep (s : HistSt) : HistEv → HistSt
   | .ck (.update id p) =>
     let c := checkpointUpdate s.repo s.ck id p
     { s with ck := some c, lastReturn := some c }
+  | .ck (.updateUnborn _) => s       -- `git rev-parse HEAD` fails: nothing is written
   | .ck .delete => { s with ck := none, lastReturn := none }
   | .ck .outDeleteAll => { s with ck := none, lastReturn := none }
 
@@ -41,7 +42,7 @@ theorem c19_show (ign : Path → Bool) (evs : List HistEv) :
       apply ih
       cases e with
       | git op => exact h
-      | ck op => cases op <;> rfl
+      | ck op => cases op <;> first | rfl | exact h
   exact this _ rfl
 
 /-- **C19 (HEAD is recorded).** Without `--id` an update records the commit HEAD resolves to at that
@@ -50,6 +51,11 @@ theorem c19_head (r : GitRepo) (old : Option Checkpoint) (pending : Bool) :
     (checkpointUpdate r old none pending).id = some r.head ∧
     ∀ i, (checkpointUpdate r old (some i) pending).id = some i :=
   ⟨rfl, fun _ => rfl⟩
+
+/-- **C19 (nothing to record).** An update without `--id` issued while HEAD resolves to no commit
+(an orphan branch before its first commit, a repository without commits) fails and leaves the stored
+checkpoint - and what `checkpoint show` returns - exactly as it was. -/
+theorem c19_unborn (s : HistSt) (p : Bool) : histStep s (.ck (.updateUnborn p)) = s := rfl
 
 /-- **C19 (delete).** After `checkpoint delete` or `out delete --all` there is no checkpoint, whatever
 happened before. -/
